@@ -8,8 +8,10 @@ PROP = dict(
         "client calls are atomic at their rendezvous with the loop (Update additionally receives its reply, which the loop sends "
         "before doing anything else), so interleavings of concurrent clients = lists of messages; Observe's atomic id counter is "
         "modelled as a counter incremented at the rendezvous (only uniqueness of ids matters)",
-        "expressions are abstracted as total functions state -> value | error; callbacks as scripts (return nil / error / panic / "
-        "call own cancel) that always return unless they call cancel; onclose only records",
+        "expressions are abstracted as total functions state -> value | error; onupdate callbacks as scripts (return nil / error / panic / "
+        "own cancel called during the callback); every onclose is taken to call the observation's own cancel function (worst case): the "
+        "model records at each onclose call site the watcher state the code has there (busy / cancelled) and whether cancel would go on "
+        "to its send; the correspondence run exercises cancel from onupdate (once/twice), from onclose (0/1/2 calls, every close reason), both",
         "Go's unspecified map iteration order is modelled by an arbitrary enumeration code per message (permBy): every code is a "
         "permutation and every permutation has a code (both proved), the theorems hold for all codes",
         "concurrency (Arrai/C17/Conc.lean, part 7 of the proofs): assumed about Go - the engine's channels are unbuffered, so a call takes "
